@@ -749,6 +749,10 @@ class VM:
         if c == 'true': return True
         if c == 'false': return False
         if c == '()': return UNIT
+        m = re.match(r'^(?:[\w:]+::)?(Result|Option)::<.*>::(Ok|Err|Some)\((.*)\)$', c)
+        if m:            # a constant Result / Option value (e.g. the residual `Err(())` of a `?` on a unit error)
+            inner = self.eval_const(m.group(3), fr, '')
+            return Adt(m.group(1), {'Ok': 0, 'Err': 1, 'Some': 1}[m.group(2)], [inner])
         m = _INTLIT.match(c)
         if m: return int(m.group(1))
         m = _FLOATLIT.match(c)
